@@ -188,6 +188,11 @@ def fault_histories():
     H = {k: T[k] for k in keep if k in T}
     H["eval-then-eval-more"] = [("add", 0, [A]), ("eval", 0, "x", 2, []), ("eval", 0, "x", 9, []), ("eval", 0, "x", 9, [])]
     H["sat-then-eval"] = [("add", 0, [A]), ("sat", 0, []), ("eval", 0, "x", 9, []), ("sat", 0, ["x==K1"]), ("max", 0, "x", False, [])]
+    # the same query repeated after the faulted one (nothing invalidates what the faulted call may have cached), also on a branch
+    H["min-fault-min"] = [("add", 0, [A]), ("min", 0, "x", False, []), ("min", 0, "x", False, []), ("branch", 0, 1), ("min", 1, "x", False, [])]
+    H["max-fault-max"] = [("add", 0, [A]), ("max", 0, "x", False, []), ("max", 0, "x", False, []), ("branch", 0, 1), ("max", 1, "x", False, [])]
+    H["smax-fault-smax"] = [("add", 0, ["x!=K2"]), ("max", 0, "x", True, []), ("max", 0, "x", True, []), ("min", 0, "x", True, []), ("min", 0, "x", True, [])]
+    H["eval-fault-eval"] = [("add", 0, [A]), ("eval", 0, "x", 9, []), ("eval", 0, "x", 9, []), ("max", 0, "x", False, [])]
     return H
 
 
@@ -276,16 +281,24 @@ def check(prop, tier, cap, only=None, procs=None, list_only=False, t0=None):
             print(o)
         return 0
     results = common.run_pool("harness.p_solvers", obs, tier, cap, procs=procs)
+    if prop == "C18":
+        # expressions: in-process identity and cross-process round trips under different hash seeds
+        from . import p_c18x
+
+        xobs = p_c18x.obligations(tier)
+        if only:
+            xobs = [o for o in xobs if fnmatch.fnmatchcase(o[0], only)]
+        results += common.run_pool("harness.p_c18x", xobs, tier, cap, procs=procs)
     b = p_c11.BOUNDS(tier)
     b["histories"] = {"C12": "17 composite histories connecting / disconnecting variable groups in different orders + a fifth of the C11 targeted families",
-                      "C13": "12 replacement histories (equality, Boolean, bound replacements, conflicts, branches) + a quarter of the C11 families; "
+                      "C13": "17 replacement histories (equality, Boolean, bound replacements, conflicts, branches, merge / split / combine of solvers that learned replacements) + a quarter of the C11 families; "
                              "SolverReplacement with default options and SolverHybrid in exact mode",
-                      "C14": "12 histories on trees of up to 3 branched solvers with interleaved adds and queries, every frontend class",
-                      "C15": "15 merge / combine / split histories (with and without ancestor, 2-3 solvers, after cached queries), every frontend class",
-                      "C16": "10 histories reaching unsatisfiability in different orders on tracked Solver / SolverComposite / SolverHybrid; the oracle may "
+                      "C14": "16 histories on trees of up to 3 branched solvers with interleaved adds and queries, every frontend class",
+                      "C15": "21 merge / combine / split histories (with and without ancestor, 2-4 solvers sharing all / some / no children or variables, merge conditions over shared variables, after cached queries), every frontend class",
+                      "C16": "14 histories (also cores asked of solvers derived by split / merge / combine / branch from an unsatisfiable one) + the BackendZ3 tracked-add kernel leg; histories reaching unsatisfiability in different orders on tracked Solver / SolverComposite / SolverHybrid; the oracle may "
                              "return any unsatisfiable subset as the core",
-                      "C17": "14 histories; the backend check that times out is a symbolic position (<= 40) - every position of every check call is covered",
-                      "C18": "a pickle round trip inserted at every position of 6 base histories, every frontend class"}[prop]
+                      "C17": "18 histories (also the same query repeated after the faulted one) + BackendZ3 kernel legs (_extrema, _batch_eval, public entry points); the backend check that times out is a symbolic position (<= 40) - every position of every check call is covered",
+                      "C18": "a pickle round trip inserted at every position of 6 base histories, every frontend class; expressions: 4 pools (64 expressions of every sort and annotation kind, stripped / replaced annotations) in-process and across processes with 3 (quick) / 4 hash-seed pairs"}[prop]
     return common.finish(prop, tier, LEVELS[prop], results, t0, functions=p_c11.FUNCTIONS + EXTRA_FUNCS[prop], bounds=b,
                          assumptions=p_c11.ASSUMPTIONS + (["the injected fault is ClaripySolverInterruptError raised by the backend's check at a symbolic "
                                                            "position; at most one fault per history"] if prop == "C17" else []),
